@@ -458,6 +458,15 @@ def check_motors_enable(ck, eng):
                         and bad is None:
                     bad = 'for (%d, %d) it sends %s; expected to end with %s after at most ' \
                           'CU,50,0 / QE / the pre-setting EM' % (a, b, fmt_seq(seq), fmt_seq([final]))
+                # CU,50,0 (permit a single enabled motor) belongs to the sequence exactly when
+                # one of the *clamped* resolutions is zero and the other is not
+                single = (c1 == 0) != (c2 == 0)
+                has_cu = ('command', 'CU,50,0') in seq
+                if seq and single != has_cu and bad is None:
+                    bad = 'for (%d, %d), i.e. EM,%d,%d, it %s CU,50,0 (%s); the single-motor ' \
+                          'permission is sent exactly when one clamped resolution is 0 and the ' \
+                          'other is not' % (a, b, c1, c2, 'sends' if has_cu else 'does not send',
+                                            fmt_seq(seq))
     ck.ob('C06-D4-clamp', fn.qualname, bad is None,
           '%s: %s (every resolution slot must be clamp(int(arg),0,5))' % (fn.qualname, bad),
           fn.loc(), key='%s::em-template' % fn.qualname)
